@@ -260,7 +260,7 @@ def _gen_variants(rng, gene, contig_seq, opts):
     if opts.get("repeat_ins"):
         for _ in range(400):
             _, ra, rb = rng.choice(inner)
-            d = rng.randint(15, 60)
+            d = rng.randint(*opts.get("repeat_d", (15, 60)))
             if rb - ra < d + 20:
                 continue
             g = rng.randint(ra + 6, rb - d - 10)
@@ -288,9 +288,9 @@ def _gen_variants(rng, gene, contig_seq, opts):
             if rb - ra < 40:
                 continue
             g = rng.randint(ra + 8, rb - 28)
-            if not clear(g - 2, g + 18):
+            if not clear(g - 2, g + 10 + opts.get("close_d", (1, 8))[1]):
                 continue
-            d = rng.randint(1, 8)
+            d = rng.randint(*opts.get("close_d", (1, 8)))
             x, y = rand_seq(rng, rng.randint(1, 3)), rand_seq(rng, rng.randint(1, 3))
             k1, k2 = rng.randint(1, 3), rng.randint(1, 3)
 
